@@ -58,6 +58,7 @@ class Scenario:
         self._cm.__enter__()
         self.t = make_transport(cfg, loop, self)
         self.gw = Gateway(self.t, Config(persistence_file=PATH))
+        self.gates: list = []  # [(what, future)]: a connect that waits for the peer (cfg cancel_entry)
         self.cmds: asyncio.Queue = asyncio.Queue()
         self.mutations = 0
         self.exit_fired = False
@@ -99,6 +100,25 @@ class Scenario:
         self.main = loop.create_task(self._main())
         self.main.add_done_callback(self._on_main_done)
 
+    def connect_gates(self) -> list:
+        if self.cfg.get("transport") == "mqtt":
+            from ..mqttfake import FakeClient
+
+            return [g for g in FakeClient.gates if not g[1].done()]
+        return [g for g in self.gates if not g[1].done()]
+
+    async def wait_gate(self, what: str) -> None:
+        if not self.cfg.get("cancel_entry"):
+            return
+        fut = self.loop.create_future()
+        entry = (what, fut)
+        self.gates.append(entry)
+        try:
+            await fut
+        finally:
+            if entry in self.gates:
+                self.gates.remove(entry)
+
     def _drain(self) -> None:
         """Run everything that can run without a timer (ready handles, executor jobs in submission order)."""
         for _ in range(10000):
@@ -111,6 +131,9 @@ class Scenario:
         raise core.HarnessError("drain does not terminate")
 
     def _on_main_done(self, _task) -> None:
+        if self.result is None:
+            # cancelled before its first step
+            self.result = ("raise", asyncio.CancelledError()) if _task.cancelled() else ("raise", _task.exception())
         # what is still running at the moment the context has been left
         self.left_at_exit = sorted(
             getattr(t.get_coro(), "__qualname__", repr(t)) for t in self.loop.tasks() if not t.done() and t is not self.main and t not in self.preexisting
@@ -161,7 +184,7 @@ class Scenario:
                     evs += ["job2:run-cancelled", "job2:drop-cancelled"]
                 else:
                     evs.append("job2")
-        if not self.exit_fired and (self.cfg["body"] != "cancel" or self.entered):
+        if not self.exit_fired and (self.cfg["body"] != "cancel" or self.entered or self.cfg.get("cancel_entry")):
             evs.append("exit")
         if self.entered and not self.exit_fired and self.mutations < self.cfg.get("mutations", 0):
             evs.append("mutate")
@@ -255,6 +278,10 @@ class Scenario:
             if cfg["connect"] in ("fail", "subscribe-fail"):
                 if not (kind == "raise" and isinstance(exc, TransportError)):
                     bad("connect-error-not-propagated", f"connect failed but the context gave {kind} {exc!r}")
+            elif cfg["body"] == "cancel" and not self.entered:
+                # cancelled while entering (a connect timeout): nothing to save or disconnect, nothing may be left
+                if not (kind == "raise" and isinstance(exc, asyncio.CancelledError)):
+                    bad("entry-cancel-not-propagated", f"the task was cancelled while entering the context but it ended with {kind} {exc!r}")
             else:
                 if not self.entered:
                     bad("not-entered", f"the context was never entered: {kind} {exc!r}")
@@ -383,6 +410,14 @@ def make_transport(cfg, loop, sc):
     sc.disconnected = lambda: "disconnect" in sc.t.calls
     if kind == "script":
         t = AsyncScriptTransport(loop)
+        if cfg.get("cancel_entry"):
+            plain_connect = t.connect
+
+            async def gated_connect():
+                await sc.wait_gate("connect")
+                await plain_connect()
+
+            t.connect = gated_connect
         if cfg["connect"] == "fail":
             t.connect_error = TransportError("injected connect failure")
         if cfg["disconnect"] == "fail":
@@ -398,6 +433,7 @@ def make_transport(cfg, loop, sc):
             reader.feed_eof()
 
         async def factory(*a, **kw):
+            await sc.wait_gate("open")
             if cfg["connect"] == "fail":
                 raise ConnectionRefusedError("injected connect failure")
             return reader, writer
@@ -421,6 +457,8 @@ def make_transport(cfg, loop, sc):
         sc.patches.append(p)
         FakeClient.instances.clear()
         FakeClient.plan = {}
+        FakeClient.gates = []
+        FakeClient.suspend = {"connect", "subscribe"} if cfg.get("cancel_entry") else set()
         if cfg["connect"] == "fail":
             FakeClient.plan["connect"] = MqttError("injected connect failure")
         if cfg["connect"] == "subscribe-fail":
@@ -435,10 +473,23 @@ def make_transport(cfg, loop, sc):
 
 
 def transport_events(sc) -> list:
+    if sc.cfg.get("cancel_entry") and sc.connect_gates():
+        return ["connect-step"]
     return []
 
 
 def fire_transport_event(sc, label) -> None:
+    if label == "connect-step":
+        g = sc.connect_gates()[0]
+        if sc.cfg.get("transport") == "mqtt":
+            from ..mqttfake import FakeClient
+
+            FakeClient.gates.remove(g)
+        else:
+            sc.gates.remove(g)
+        if not g[1].done():
+            g[1].set_result(None)
+        return
     raise core.HarnessError(f"unknown event {label}")
 
 
@@ -475,6 +526,9 @@ def configs(ctx: core.Ctx) -> list:
     for kind in ("script", "tcp", "serial", "mqtt"):
         for disconnect in ("ok", "fail"):
             out.append({"body": "cancel", "connect": "ok", "disconnect": disconnect, "file": "present", "transport": kind, "max_clock": 1})
+    # ... also while the context is still being entered (a connect that waits for the peer and is timed out)
+    for kind in ("script", "tcp", "serial", "mqtt"):
+        out.append({"body": "cancel", "connect": "ok", "disconnect": "ok", "file": "present", "transport": kind, "max_clock": 0, "cancel_entry": True})
     # the same gateway object is entered a second time; another gateway is inside its own context meanwhile
     out.append({"body": "return", "connect": "ok", "disconnect": "ok", "file": "present", "transport": "script", "earlier": "immediate"})
     out.append({"body": "raise", "connect": "ok", "disconnect": "ok", "file": "missing", "transport": "script", "earlier": "immediate"})
